@@ -8,6 +8,7 @@ mod c03;
 mod c13;
 mod c11;
 mod c04;
+mod c14;
 
 fn main() {
     std::panic::set_hook(Box::new(|_| {}));
@@ -41,6 +42,8 @@ fn main() {
         "c04-record" => c04::record(rest),
         "c05-replay" => c04::replay_func(rest),
         "c05-record" => c04::record_func(rest),
+        "c14-replay" => c14::replay(rest),
+        "c14-record" => c14::record(rest),
         x => {
             eprintln!("unknown subcommand {}", x);
             std::process::exit(2);
